@@ -4,6 +4,7 @@ import (
 	"bytes"
 	"errors"
 	"fmt"
+	"github.com/KevoDB/kevo/pkg/verifhook"
 	"os"
 	"path/filepath"
 	"sort"
@@ -169,9 +170,11 @@ func (m *Manager) Put(key, value []byte) error {
 			return err // Return ErrWALRotating for retry handling
 		}
 
+		verifhook.At("mgr.put.afterLog")
 		// Add to MemTable
 		m.memTablePool.Put(key, value, seqNum)
 		m.lastSeqNum = seqNum
+		verifhook.At("mgr.put.afterMem")
 
 		// Update memtable size estimate
 		m.stats.TrackMemTableSize(uint64(m.memTablePool.TotalSize()))
@@ -210,6 +213,7 @@ func (m *Manager) Get(key []byte) ([]byte, error) {
 		return val, nil
 	}
 
+	verifhook.At("mgr.get.afterMem")
 	// Check the SSTables (searching from newest to oldest)
 	for i := len(m.sstables) - 1; i >= 0; i-- {
 		// Create a custom iterator to check for tombstones directly
@@ -266,9 +270,11 @@ func (m *Manager) Delete(key []byte) error {
 			return err // Return ErrWALRotating for retry handling
 		}
 
+		verifhook.At("mgr.del.afterLog")
 		// Add deletion marker to MemTable
 		m.memTablePool.Delete(key, seqNum)
 		m.lastSeqNum = seqNum
+		verifhook.At("mgr.del.afterMem")
 
 		// Update memtable size estimate
 		m.stats.TrackMemTableSize(uint64(m.memTablePool.TotalSize()))
@@ -384,6 +390,7 @@ func (m *Manager) ApplyBatch(entries []*wal.Entry) error {
 			return err // Return ErrWALRotating for retry handling
 		}
 
+		verifhook.At("mgr.batch.afterLog")
 		// Apply each entry to the MemTable. All entries of a batch share the
 		// batch's sequence number, exactly as they are recorded in the WAL
 		for _, entry := range entries {
@@ -397,6 +404,7 @@ func (m *Manager) ApplyBatch(entries []*wal.Entry) error {
 			}
 
 			m.lastSeqNum = seqNum
+			verifhook.At("mgr.batch.entry")
 		}
 
 		// Update memtable size
@@ -422,6 +430,7 @@ func (m *Manager) FlushMemTables() error {
 	m.flushMu.Lock()
 	defer m.flushMu.Unlock()
 
+	verifhook.At("mgr.flush.start")
 	// Track operation
 	m.stats.TrackOperation(stats.OpFlush)
 
@@ -461,6 +470,7 @@ func (m *Manager) FlushMemTables() error {
 		}
 	}
 
+	verifhook.At("mgr.flush.beforeClear")
 	// Clear the immutable list - the MemTablePool manages reuse
 	m.immutableMTs = m.immutableMTs[:0]
 
@@ -534,6 +544,7 @@ func (m *Manager) rotateWAL() error {
 		currentWAL.SetRotating()
 	}
 
+	verifhook.At("mgr.rotate.setRotating")
 	// Create a new WAL first before closing the old one
 	newWAL, err := wal.NewWAL(m.cfg, m.walDir)
 	if err != nil {
@@ -546,12 +557,14 @@ func (m *Manager) rotateWAL() error {
 		newWAL.UpdateNextSequence(currentWAL.GetNextSequence())
 	}
 
+	verifhook.At("mgr.rotate.newWAL")
 	// Store the old WAL for proper closure
 	oldWAL := m.wal
 
 	// Atomically update the WAL reference using atomic pointer operations
 	atomic.StorePointer((*unsafe.Pointer)(unsafe.Pointer(&m.wal)), unsafe.Pointer(newWAL))
 
+	verifhook.At("mgr.rotate.swapped")
 	// Now close the old WAL after the new one is in place
 	if oldWAL != nil {
 		if err := oldWAL.Close(); err != nil {
@@ -562,6 +575,7 @@ func (m *Manager) rotateWAL() error {
 		}
 	}
 
+	verifhook.At("mgr.rotate.closed")
 	return nil
 }
 
@@ -620,6 +634,7 @@ func (m *Manager) scheduleFlush() error {
 	// Get the MemTable that needs to be flushed
 	immutable := m.memTablePool.SwitchToNewMemTable()
 
+	verifhook.At("mgr.scheduleFlush.switched")
 	// Add to our list of immutable tables to track
 	m.immutableMTs = append(m.immutableMTs, immutable)
 
@@ -744,11 +759,13 @@ func (m *Manager) flushMemTable(mem *memtable.MemTable) error {
 		return nil
 	}
 
+	verifhook.At("flush.beforeFinish")
 	// Finish writing the SSTable
 	if err := writer.Finish(); err != nil {
 		return fmt.Errorf("failed to finish SSTable: %w", err)
 	}
 
+	verifhook.At("flush.sstFinished")
 	// Track bytes written to SSTable
 	m.stats.TrackBytes(true, bytesWritten)
 
@@ -763,10 +780,12 @@ func (m *Manager) flushMemTable(mem *memtable.MemTable) error {
 		return fmt.Errorf("failed to open SSTable: %w", err)
 	}
 
+	verifhook.At("flush.beforePublish")
 	// Add the SSTable to the list
 	m.mu.Lock()
 	m.sstables = append(m.sstables, reader)
 	m.mu.Unlock()
+	verifhook.At("flush.published")
 
 	return nil
 }
